@@ -672,7 +672,9 @@ impl<'a> GExec<'a> {
                 ctx.count("probe.misdelivered_proof_refused");
             }
             let cls = format!("approve/accepted:{}", why);
-            if !self.must_fail(ctx, &res, props, &cls, why) {
+            let with_c08: Vec<&'static str> = props.iter().copied().chain(std::iter::once("C08")).collect();
+            let tags: &[&'static str] = if why == "set-outdated" { &with_c08 } else { props };
+            if !self.must_fail(ctx, &res, tags, &cls, why) {
                 return false;
             }
             // every message of the batch still reads as the model says
